@@ -330,6 +330,18 @@ def prove(rep, module, theorems, extra_targets=()):
             rep.notes.setdefault("open_assumptions", {})[t] = txt[:400]
     rep.cov["discharged"] = good
     rep.assump.append("Print Assumptions: %d of %d theorems of %s are closed under the global context" % (good, len(theorems), module))
+    if rep.tier == "thorough":
+        # independent re-check of the compiled files (and everything they depend on) with coqchk; it lists the axioms used
+        with Lock("coqchk"):
+            r = sh(["timeout", "3000", "coqchk", "-silent", "-o", "-R", "theories", "SP", "SP." + module], cwd=COQ, timeout=3100)
+        txt = r.stdout
+        m = re.search(r"\* Axioms:\s*(.*?)\n\s*\n", txt, re.S)
+        axioms = (m.group(1).strip() if m else "coqchk output not understood: " + txt[-300:])
+        rep.notes["coqchk"] = {"cmd": "coqchk -silent -o -R theories SP SP.%s" % module, "exit": r.returncode, "axioms": axioms}
+        rep.assump.append("coqchk (independent checker) re-checked %s and its dependencies: axioms = %s" % (module, axioms))
+        if r.returncode != 0 or axioms != "<none>":
+            rep.notes.setdefault("open_assumptions", {})["coqchk"] = axioms
+            return False
     return good == len(theorems)
 
 
